@@ -250,7 +250,22 @@ inductive Call where
   | trackGet (t : Nat) (g : Getter)
   | trackSnapshot (t : Nat)
   | trackIsValid (t : Nat)
+  -- NOT a call of the library: other software sharing the database (Engine itself) stores, in playlist `c`, an
+  -- entry for track `t` of ANOTHER database `u` (uuid tag ≠ 0) — such entries may carry the numeric ids of the
+  -- library's own tracks and must never be confused with them (fix 9a475eb)
+  | foreignEntry (c t u : Int)
   deriving Repr
+
+/-- the public alphabet of the library -/
+def Call.isApi : Call → Bool
+  | .foreignEntry _ _ _ => false
+  | _ => true
+
+/-- histories the composite theorems range over: the public alphabet, interleaved with foreign entries that are
+foreign (another database's uuid, a positive track id) -/
+def Call.admissible : Call → Bool
+  | .foreignEntry _ t u => decide (u ≠ 0) && decide (0 < t)
+  | _ => true
 
 def Call.isObserver : Call → Bool
   | .crates | .crateById _ | .cratesByName _ | .rootCrates | .rootCrateByName _ | .tracks | .trackById _
@@ -339,9 +354,54 @@ def step (ops : FOps) (s : Schema2) (L : Lib2) : Call → Lib2 × Res Out
      | some row => (L, (readSnap ops row.row).bind fun x => .ok (.snap x))
      | none => (L, .throw (.dj "track_deleted")))
   | .trackIsValid t => (L, .ok (.bool (L.tdb.find t).isSome))
+  -- playlist_entity_table::add_back by another writer, into an existing playlist
+  | .foreignEntry c t u =>
+    if EngineModel.Db.V2.qValid L.crates c then (crateCall (.peAddBack c t u false) >>= fun _ => (pure Out.unit : M2 Out)) L
+    else (L, .ok .unit)
 
 /-- any history, whatever the outcomes of its calls (failed calls included) -/
 def run (ops : FOps) (s : Schema2) (L : Lib2) (h : List Call) : Lib2 := h.foldl (fun L c => (step ops s L c).1) L
+
+/-! ### how a call of the composite shows to each package (for transporting the packages' history theorems)
+
+`crateHist` / `trackHist`: the history of the composite, as the crate package and the track package see it.
+Proofs/Lib2Sim.lean: the crate tables (with the real Track ids) after a composite history ARE the crate
+package's tables after `crateHist`, the Track table IS the track package's table after `trackHist`. -/
+
+def isOk {α} : Res α → Bool
+  | .ok _ => true
+  | _ => false
+
+/-- the call as an operation of the crate package (`none`: the crate package sees nothing) -/
+def crateOpOf (ops : FOps) (s : Schema2) (L : Lib2) : Call → Option COp
+  | .createTrack x => if isOk (step ops s L (.createTrack x)).2 then some .createTrack else none
+  | .removeTrack t => some (.removeTrack (t : Int))
+  | .createRootCrate n => some (.createRoot n)
+  | .createRootCrateAfter n a => some (.createRootAfter n a)
+  | .removeCrate c => some (.removeCrate c)
+  | .crateAddTrack c t => some (.addTrack c t)
+  | .crateRemoveTrack c t => some (.removeTrackFrom c t)
+  | .crateClearTracks c => some (.clearTracks c)
+  | .crateCreateSub c n => some (.createSub c n)
+  | .crateCreateSubAfter c n a => some (.createSubAfter c n a)
+  | .crateSetName c n => some (.rename c n)
+  | .crateSetParent c p => some (.setParent c p)
+  | .foreignEntry c t u => if EngineModel.Db.V2.qValid L.crates c then some (.peAddBack c t u false) else none
+  | _ => none
+
+def crateHist (ops : FOps) (s : Schema2) (L : Lib2) : List Call → List COp
+  | [] => []
+  | c :: cs => (crateOpOf ops s L c).toList ++ crateHist ops s (step ops s L c).1 cs
+
+/-- the call as an operation of the track package -/
+def trackOpOf : Call → Option TOp
+  | .createTrack x => some (.create x)
+  | .trackUpdate t x => some (.update t x)
+  | .trackSet t σ => some (.set t σ)
+  | .removeTrack t => some (.remove t)
+  | _ => none
+
+def trackHist (hist : List Call) : List TOp := hist.filterMap trackOpOf
 
 /-! ### the executable whole-library invariant (`LibInv`), evaluated by the tie on the REAL dump
 
